@@ -394,11 +394,17 @@ class G:
                         cv = self.d(st.binary(min_size=nb, max_size=nb))
                         self.features.add("const:bytefield")
                     else:
-                        dct = self.int_dct(32, signed=False)
+                        wide = self.chance(25)      # constants of up to 64 bits (not exactly representable as double)
+                        dct = self.int_dct(64 if wide else 32, signed=False)
                         dct.pop("mask", None)
                         bit = self.d(st.integers(0, 7)) if self.chance(30) else 0
                         sz = (bit + dct["bl"] + 7) // 8
                         cv = self.int_value(dct)
+                        if wide and dct["bl"] >= 56:
+                            from vlib.refcodec import int_range
+                            lo_, hi_ = int_range(dct["bt"], dct.get("enc"), dct["bl"])
+                            cv = min(hi_, max(lo_, (cv | (1 << 55) | 1)))
+                            self.features.add("const:over-53-bits")
                     p = {"pk": "const", "name": self.nid("cc"), "pos": pos, "bit": bit, "dct": dct,
                          "v": cv, "_end": pos + sz}
                     static_layout.append(p)
@@ -406,7 +412,7 @@ class G:
                     self.features.add("pk:const")
                     continue
                 if r < 29:
-                    dop = self.simple_int_dop(32)
+                    dop = self.simple_int_dop(64, identical=True) if self.chance(20) else self.simple_int_dop(32)
                     dop["dct"].pop("mask", None)
                     bit = self.d(st.integers(0, 7)) if self.chance(30) else 0
                     sz = (bit + dop["dct"]["bl"] + 7) // 8
